@@ -175,13 +175,17 @@ func (r *c33Run) Main(s *sim.Sim) {
 	sort.Slice(all, func(i, j int) bool { return all[i].ID().String() < all[j].ID().String() })
 	hasSubtype := ua.NewNumericNodeID(0, id.HasSubtype).String()
 	children := map[string][]string{} // type -> direct subtypes
-	for _, n := range all {
-		for _, ref := range n.VerifRefs() {
-			if ref.ReferenceTypeID != nil && ref.ReferenceTypeID.String() == hasSubtype && ref.IsForward && ref.NodeID != nil {
-				children[n.ID().String()] = append(children[n.ID().String()], ref.NodeID.NodeID.String())
+	rebuild := func() {
+		children = map[string][]string{}
+		for _, n := range all {
+			for _, ref := range n.VerifRefs() {
+				if ref.ReferenceTypeID != nil && ref.ReferenceTypeID.String() == hasSubtype && ref.IsForward && ref.NodeID != nil {
+					children[n.ID().String()] = append(children[n.ID().String()], ref.NodeID.NodeID.String())
+				}
 			}
 		}
 	}
+	rebuild()
 	var isSub func(t, of string, depth int) bool
 	isSub = func(t, of string, depth int) bool {
 		if depth > 64 {
@@ -223,10 +227,48 @@ func (r *c33Run) Main(s *sim.Sim) {
 	}
 	defer close(stop)
 
+	// the application extends the type hierarchy while clients browse: a new reference
+	// type node is added at one point of the run, and only later hooked under its
+	// supertype (the order ImportNodeSet uses: nodes first, references second)
+	var lateType *server.Node
 	for qi, q := range r.Queries {
+		switch qi {
+		case len(r.Queries) / 3:
+			lateType = server.NewFolderNode(c33CustomID(e.ns.ID(), "s:LateType"), "LateType")
+			lateType.SetNodeClass(ua.NodeClassReferenceType)
+			e.ns.AddNode(lateType)
+			carrier := byID[e.nodeID("cx3").String()]
+			tgt := byID[e.nodeID("v0").String()]
+			if carrier != nil && tgt != nil {
+				// a node that carries a reference of the new type
+				attr := map[ua.AttributeID]*ua.DataValue{}
+				for _, a := range []ua.AttributeID{ua.AttributeIDNodeClass, ua.AttributeIDBrowseName, ua.AttributeIDDisplayName, ua.AttributeIDDescription, ua.AttributeIDEventNotifier} {
+					if v, err := carrier.Attribute(a); err == nil && v != nil {
+						attr[a] = v.Value
+					}
+				}
+				refs := []*ua.ReferenceDescription{{ReferenceTypeID: lateType.ID(), IsForward: true, NodeID: ua.NewExpandedNodeID(tgt.ID(), "", 0),
+					BrowseName: tgt.BrowseName(), DisplayName: tgt.DisplayName(), NodeClass: tgt.NodeClass(), TypeDefinition: tgt.DataType()}}
+				nn := e.ns.AddNode(server.NewNode(e.nodeID("late-carrier"), attr, refs, nil))
+				byID[nn.ID().String()] = nn
+				all = append(all, nn)
+			}
+			byID[lateType.ID().String()] = lateType
+			all = append(all, lateType)
+			rebuild()
+			s.Probe("reference-type-node-added")
+		case 2 * len(r.Queries) / 3:
+			if lateType != nil {
+				if sup := byID[c33CustomID(e.ns.ID(), "s:FeedsInto").String()]; sup != nil {
+					sup.AddRef(lateType, server.RefType(id.HasSubtype), true)
+					rebuild()
+					s.Probe("reference-type-hooked-under-supertype")
+				}
+			}
+		}
 		var n *server.Node
 		if q.Node < 0 {
-			names := []string{"cx0", "cx1", "cx2", "cx3", "v0", "v1", "folder", "obj"}
+			names := []string{"cx0", "cx1", "cx2", "cx3", "v0", "late-carrier", "folder", "late-carrier"}
 			n = byID[e.nodeID(names[(-1-q.Node)%len(names)]).String()]
 		}
 		if n == nil {
